@@ -7,7 +7,7 @@ TYPES = {1: "a", 28: "aaaa"}
 
 
 def gen(chk, name, c, timeout=900):
-    base = {"NameIdx": set(range(1, 19)), "SearchIdx": {1}, "NdotsSet": {1}, "TypeSet": {1}, "FlagSet": {0}, "CaseSet": {1}, "EdnsSet": {0}}
+    base = {"NameIdx": set(range(1, 23)), "SearchIdx": {1}, "NdotsSet": {1}, "TypeSet": {1}, "FlagSet": {0}, "CaseSet": {1}, "EdnsSet": {0}}
     base.update({k: set(v) for k, v in c.items()})
     cfg = vkit.write_cfg(name, base, invariants=["PredictionsEncodable", "SelfConsistent", "Emit"])
     out, seen = [], set()
@@ -73,7 +73,8 @@ def run(tier, seed):
         if res["k"] == "fail":
             if pk:
                 chk.violation("C36: a name that cannot be encoded as valid labels (%r) was transmitted: %s" % (text_of(s["name"])[:40], pk[0][:120]),
-                              {"scenario": sc, "prediction": res, "actual": o}, key=KEY_EMPTY)
+                              {"scenario": sc, "prediction": res, "actual": o},
+                              key=KEY_EMPTY if s.get("ni") in (5, 6, 7, 8, 12, 13) else None)   # the known finding: empty labels / 254-255 characters
             elif o["ret"] and (not errs or errs[0] == 0):
                 chk.violation("C36: request for an unencodable name neither failed nor reported an error", {"scenario": sc, "actual": o})
             continue
@@ -108,7 +109,7 @@ def run(tier, seed):
     for s in specs[:3]:
         chk.sample({"name": text_of(s["name"]).decode("latin-1"), "search": [dc.join_labels(d).decode() for d in s["search"]], "ndots": s["ndots"],
                     "prediction": {"k": s["res"]["k"], "names": [dc.join_labels(n).decode("latin-1") for n in s["res"]["names"]]}})
-    chk.cov["rule"] = ("TLC enumerates requests over 18 name tokens (plain, mixed case, empty labels, leading / trailing / double dots, 63/64-byte "
+    chk.cov["rule"] = ("TLC enumerates requests over 22 name tokens (plain, mixed case, empty labels, leading / trailing / double dots, 63/64-byte "
                        "labels, 253/254/255-character names, non-ASCII, backslash) x search lists x ndots x A/AAAA x DNS_QUERY_NO_SEARCH x "
                        "randomize-case x edns-udp-size and predicts with DnsMsgQ!QueryFor either failure or the exact sequence of question "
                        "names (every answer is NXDOMAIN).  The real resolver is configured through a resolv.conf + set_option, a fake "
